@@ -224,25 +224,51 @@ class MetaSim(SimEngine):
 
     @staticmethod
     def why_lost(calls, plan):
-        """Refinement of the class of a wrong UNSOLVABLE_PROVEN: replays the solving plan of the original problem on
-        the problem the stub was last asked about.  If the first step that fails there fails on a type bound while
-        some `_<fluent>_is_unknown` flag is set, the abstraction kept the STALE value of a fluent it declares unknown
-        (known finding C31-unknown-fluent-keeps-stale-value)."""
+        """Refinement of the class of a wrong UNSOLVABLE_PROVEN: follows the solving plan of the original problem
+        through the problem the stub was last asked about, each step through ANY compiled variant of the original
+        action (`a`, `a_0`, ... with any grounding of the helper parameters).  If the plan cannot be completed there
+        and one of the blocked steps fails on a type bound while some `_<fluent>_is_unknown` flag is set, the
+        abstraction kept the STALE value of a fluent it declares unknown (known finding
+        C31-unknown-fluent-keeps-stale-value)."""
+        import re
         last = next((c for c in reversed(calls) if c.get("result") == "unsolvable" and c.get("desc")), None)
         if last is None or plan is None:
             return ""
         try:
             rs = RefSem(last["desc"])
-            st = rs.initial_state()
-            for an, ps in plan:
-                ok, new, why = rs.successor(st, an, tuple(ps))
-                if not ok:
-                    unknown = any(k[0].startswith("_") and k[0].endswith("_is_unknown") and v is True for k, v in st.items())
-                    return "/stale-value-of-unknown-fluent-out-of-bounds" if why == "bound" and unknown else ""
-                st = new
+            names = [a["name"] for a in last["desc"]["actions"]]
+            blocked = []
+            budget = [2000]
+
+            def variants(an):
+                return [n for n in names if n == an or re.fullmatch(re.escape(an) + r"_\d+", n)]
+
+            def follow(st, idx):
+                if idx == len(plan):
+                    return True
+                for cn in variants(plan[idx][0]):
+                    for ps in rs.ground_instances(cn):
+                        budget[0] -= 1
+                        if budget[0] < 0:
+                            return False
+                        try:
+                            ok, new, why = rs.successor(st, cn, tuple(ps))
+                        except Ambiguous:
+                            continue
+                        if ok:
+                            if follow(new, idx + 1):
+                                return True
+                        else:
+                            unknown = any(k[0].startswith("_") and k[0].endswith("_is_unknown") and v is True
+                                          for k, v in st.items())
+                            blocked.append((why, unknown))
+                return False
+
+            if follow(rs.initial_state(), 0):
+                return ""
+            return "/stale-value-of-unknown-fluent-out-of-bounds" if any(w == "bound" and u for w, u in blocked) else ""
         except Exception:
             return ""
-        return ""
 
     def profiles(self, tier):
         return ["if-clean", "os-clean", "if-faults", "os-faults", "if-timeout", "os-timeout"]
